@@ -46,7 +46,7 @@ var props = map[string]propConf{
 	"C02": {Engine: "E1+E2", QuickBudget: 15, ThorBudget: 600},
 	"C03": {Engine: "E1", QuickBudget: 12, ThorBudget: 600},
 	"C04": {Engine: "E1+E2", QuickBudget: 12, ThorBudget: 600},
-	"C05": {Engine: "E1", QuickBudget: 12, ThorBudget: 600},
+	"C05": {Engine: "E1+E2", QuickBudget: 12, ThorBudget: 600},
 	"C06": {Engine: "E1+E2", QuickBudget: 12, ThorBudget: 600},
 	"C07": {Engine: "E1", QuickBudget: 12, ThorBudget: 600},
 	"C08": {Engine: "E1", QuickBudget: 12, ThorBudget: 600},
